@@ -89,6 +89,7 @@ long sim_ledger_live_bytes(void);
 void sim_ledger_check_empty(const char *when); /* sim_fail if not empty */
 /* iterate for diagnostics */
 void sim_ledger_dump(int max);
+int sim_ledger_contains(const void *lo, const void *hi); /* [lo,hi) lies inside one live block of the runtime */
 
 /* ---- context ownership monitor (M-owner) is always on; query: */
 uint64_t sim_ctx_switches(void);
